@@ -1,6 +1,7 @@
 """Handle-level checks: C06 (byte-vector semantics for every buffer size),
 C12 (read faults), C13 (write faults)."""
 import json
+import re
 import os
 import random
 
@@ -184,10 +185,27 @@ def check_c13(tier, seed):
     wl += hgens.rw_small_workloads()
     hs = fault_histories(wl, "w", tier, rng, "rw")
     run_batch(out, "faults", "A", hs, spec="Trace_Handle", driver="hdrive")
+    # fidelity of CfbFault's ORDER of table writes: recorded write calls of file-level histories against the model
+    from . import gens
+    from .checks import random_batches
+    wlines = []
+    hs = [dict(h, wlog=True, heavy="none") for h in random_batches(seed + 21, tier, 40, 400, 40, dicts=("A",), meta_p=0.0)["A"]]
+    run_batch(out, "writeorder", "A", hs, spec="Trace_Writes", keep=wlines)
+    wcmp = sum(int(m.group(1)) for m in (re.match(r'^<<"WCOMPARED", (\d+)>>', ln) for ln in wlines) if m)
+    wdrift = [ln for ln in wlines if ln.startswith('<<"WDRIFT"')]
+    kinds = {}
+    for ln in wdrift:
+        k = ln.split('"')[3]
+        kinds[k] = kinds.get(k, 0) + 1
+    for k, n in sorted(kinds.items()):
+        print(f"SPEC-DRIFT C13 CfbFault does not predict the order of the table writes of: {k} x{n}")
     return finish(out, "fault_enumeration",
+                  "design level: MC_Fault (CfbFault = the write paths write by write, memory / file split; every state x operation x failing write x retry, "
+                  "and with another operation in between) at tiny geometry; fidelity: Trace_Writes compares the order of the table writes CfbFault predicts "
+                  "with the recorded write calls; "
                   "k-th backend write/seek/flush call of a mutating workload fails (quick: every k up to 420 calls, beyond that the first and last backend calls of every API call plus an even sample; thorough: every k and sampled pairs): the API call during which it fires must return Err, nothing later may panic or hang, "
                   "and an Ok flush must make every accepted byte readable through a fresh handle; the failed call is retried",
-                  H_ASSUME)
+                  H_ASSUME, {"fidelity": {"operations_whose_table_write_order_was_compared_with_CfbFault": wcmp, "write_order_drift": kinds}})
 
 
 HCHECKS = {"C06": check_c06, "C12": check_c12, "C13": check_c13}
